@@ -33,6 +33,12 @@ FirstNOISE == TokNOISE \cup {TokFin, TokRst,
 \* NOISEH: NOISE plus finalize / reset anywhere (reset while noise or a partial start sequence is pending)
 TokNOISEH == TokNOISE \cup {TokFin, TokRst}
 
+\* ZEROS: from just after START, zero / non-zero data bytes and end sequences with the checksum the decoder expects:
+\* runs of five and more zeros (the fifth is stored directly), flushes, padding taken from the withheld zeros, with
+\* small capacities so that every push site can run out of memory
+TokZEROS   == {TokByte(0), TokByte(85)} \cup { TokEnd(p, "cur") : p \in 0..3 }
+FirstZEROS == {TokStart}
+
 \* PAY: all payloads over PayBytes up to PayLen as a first frame token
 RECURSIVE SeqsUpTo(_, _)
 SeqsUpTo(S, n) == IF n = 0 THEN {<<>>}
